@@ -42,6 +42,7 @@ import (
 type SubGroup struct {
 	Name      string
 	MinMember int32
+	Parent    string // "" = directly under the root
 }
 
 type Job struct {
@@ -66,6 +67,9 @@ type Cluster struct {
 	Queues  []Queue
 	Jobs    []Job
 	Actions []string
+	// fault injection: indices of the Bind / Evict Cache calls that fail
+	FailBinds  []int
+	FailEvicts []int
 }
 
 type Call struct {
@@ -80,10 +84,20 @@ func (r *recorder) Calls() []Call { return r.calls }
 
 type recorder struct {
 	cache.Cache
-	calls []Call
+	calls     []Call
+	nbind     int
+	nevict    int
+	FailBind  map[int]bool // the k-th Bind call (0-based) returns an error
+	FailEvict map[int]bool
 }
 
 func (r *recorder) Bind(p *pod_info.PodInfo, hostname string, ann map[string]string) error {
+	k := r.nbind
+	r.nbind++
+	if r.FailBind[k] {
+		r.calls = append(r.calls, Call{Kind: "bindfail", Pod: p.Name, Node: hostname, Groups: append([]string{}, p.GPUGroups...)})
+		return fmt.Errorf("injected bind failure #%d", k)
+	}
 	r.calls = append(r.calls, Call{Kind: "bind", Pod: p.Name, Node: hostname, Groups: append([]string{}, p.GPUGroups...)})
 	return nil
 }
@@ -92,6 +106,13 @@ func (r *recorder) Evict(pod *v1.Pod, job *podgroup_info.PodGroupInfo, md evicti
 	c := Call{Kind: "evict", Pod: pod.Name, Action: md.Action}
 	if md.Preemptor != nil {
 		c.Preemptor = md.Preemptor.Name
+	}
+	k := r.nevict
+	r.nevict++
+	if r.FailEvict[k] {
+		c.Kind = "evictfail"
+		r.calls = append(r.calls, c)
+		return fmt.Errorf("injected evict failure #%d", k)
 	}
 	r.calls = append(r.calls, c)
 	return nil
@@ -147,7 +168,12 @@ func Build(c Cluster) *Built {
 			Spec: enginev2alpha2.PodGroupSpec{Queue: j.Queue, MinMember: j.MinMember},
 		}
 		for _, sg := range j.SubGroups {
-			crd.Spec.SubGroups = append(crd.Spec.SubGroups, enginev2alpha2.SubGroup{Name: sg.Name, MinMember: sg.MinMember})
+			csg := enginev2alpha2.SubGroup{Name: sg.Name, MinMember: sg.MinMember}
+			if sg.Parent != "" {
+				parent := sg.Parent
+				csg.Parent = &parent
+			}
+			crd.Spec.SubGroups = append(crd.Spec.SubGroups, csg)
 		}
 		job.SetPodGroup(crd)
 		job.Priority = j.Priority
@@ -198,7 +224,13 @@ func Build(c Cluster) *Built {
 	ctrl := gomock.NewController(b.Rep)
 	cfg := &test_utils.TestSessionConfig{Plugins: test_utils.BuildPlugins(meta), CachePlugins: map[string]bool{"predicates": true}}
 	b.Ssn = test_utils.CreateFakeSession(cfg, b.Nodes, b.Jobs, queues, meta, ctrl, true, nil, cpai)
-	b.Rec = &recorder{Cache: b.Ssn.Cache}
+	b.Rec = &recorder{Cache: b.Ssn.Cache, FailBind: map[int]bool{}, FailEvict: map[int]bool{}}
+	for _, k := range c.FailBinds {
+		b.Rec.FailBind[k] = true
+	}
+	for _, k := range c.FailEvicts {
+		b.Rec.FailEvict[k] = true
+	}
 	b.Ssn.Cache = b.Rec
 	return b
 }
@@ -338,6 +370,10 @@ func Emit(c Cluster) (term string, label string, st map[string]int) {
 		case "pipe":
 			calls = append(calls, fmt.Sprintf("(CPipe %s %s %s)", u.Pos(ids.Of("p:"+cl.Pod)), u.Pos(ids.Of("n:"+cl.Node)), core.Groups(ids, cl.Groups)))
 			cdesc = append(cdesc, fmt.Sprintf("pipe(%s->%s%v)", cl.Pod, cl.Node, cl.Groups))
+		case "bindfail":
+			cdesc = append(cdesc, fmt.Sprintf("bindFAILED(%s->%s%v)", cl.Pod, cl.Node, cl.Groups))
+		case "evictfail":
+			cdesc = append(cdesc, fmt.Sprintf("evictFAILED(%s,%s)", cl.Pod, cl.Action))
 		case "evict":
 			pre := "None"
 			if cl.Preemptor != "" {
